@@ -64,23 +64,44 @@ def run(chk):
     if chk.require("R1 salt", "R1|convert_eval_to_ctap", cv, "passkey_client::extensions::prf", "convert_eval_to_ctap not found"):
         chk.touched(cv)
         okh = okp = okerr = False
-        for o in S.local_outcomes(cv):
-            hashed = [l for t, l, f, w in o.conds if t == ("param", 2)]
+        # the function's full table (private helpers expanded), values in normal form
+        rows_cv = normal.rows(S, cv, N, expand=True, deep=True)
+        is_hash = lambda y: is_call(y, "prf::make_salt") or is_call(y, "crypto::sha256") or is_call(y, "sha256") or is_call(y, "Digest::digest")
+
+        def salt_of(t, x):
+            """t = SHA-256("WebAuthn PRF" || 0x00 || x)"""
+            if is_call(t, "prf::make_salt"):
+                return t[2][0] == x
+            if is_hash(t) and t[2]:
+                sg = flow.byte_segments(N.norm(t[2][-1]))
+                return len(sg) == 3 and sg[0] == ("const", b"WebAuthn PRF") and sg[1] == ("array", (("const", 0),)) and sg[2] == x
+            return False
+        is_conv = lambda y: (is_call(y, "TryInto::try_into") or is_call(y, "TryFrom::try_from")) and has(y, lambda z: isinstance(z, tuple) and len(z) == 3 and z[0] == "field" and z[2] in ("first", "second"))
+        n_h = n_p = 0
+        okh = okp = True
+        for o in rows_cv:
+            hashed = [flow.bool_atom(t, l)[1] for t, l, f, w in o.conds if flow.bool_atom(t, l)[0] == ("param", 2)]
+            if not hashed:
+                continue
+            v = N.inline(o.value)
             if o.variant[:1] == ("Ok",):
-                v = dict(o.value[3]).get("0")
-                d = dict(v[3]) if v and v[0] == "agg" else {}
+                pv = dict(v[3]).get("0")
+                d = dict(pv[3]) if pv and pv[0] == "agg" else {}
                 first, second = d.get("first"), d.get("second")
-                if hashed and flow.lab_true(hashed[0]):
-                    okh = is_call(first, "prf::make_salt") and first[2][0] == ("field", ("param", 1), "first") and second is not None and has(second, lambda x: x == ("field", ("param", 1), "second")) and (has(second, lambda x: is_call(x, "prf::make_salt")) or has(second, lambda x: isinstance(x, tuple) and len(x) == 2 and x[0] == "const" and isinstance(x[1], str) and x[1].endswith("make_salt")))
-                elif hashed and flow.lab_false(hashed[0]):
-                    okp = first is not None and has(first, lambda x: is_call(x, "TryInto::try_into") and x[2][0] == ("field", ("param", 1), "first")) and not has(first, lambda x: is_call(x, "prf::make_salt") or is_call(x, "sha256"))
-            else:
-                if hashed and flow.lab_false(hashed[0]):
-                    for t, l, f, w in o.conds:
-                        for c in [x for x in sub(t) if isinstance(x, tuple) and len(x) == 3 and x[0] == "closure"]:
-                            r = closure_ret(p, c)
-                            if r is not None and has(r, lambda x: isinstance(x, tuple) and len(x) == 4 and x[0] == "agg" and x[2] == "ValidationError"):
-                                okerr = True
+                if hashed[0] is True:
+                    n_h += 1
+                    s_ok = second == normal.NONE or (second is not None and second[0] == "agg" and second[2] == "Some" and salt_of(dict(second[3])["0"], ("payload", ("field", ("param", 1), "second"))))
+                    okh = okh and first is not None and salt_of(first, ("field", ("param", 1), "first")) and s_ok
+                else:
+                    n_p += 1
+                    raw = lambda t, fld: flow.is_payload_of(t, lambda y: is_conv(y) and has(y, lambda z: isinstance(z, tuple) and len(z) == 3 and z[0] == "field" and z[2] == fld))
+                    s_ok = second == normal.NONE or (second is not None and second[0] == "agg" and second[2] == "Some" and raw(dict(second[3])["0"], "second"))
+                    okp = okp and first is not None and raw(first, "first") and s_ok and not has(pv, is_hash)
+            elif hashed[0] is False:
+                if any(flow.asserts_fail(t, l, lambda y: is_conv(y) or (isinstance(y, tuple) and len(y) == 4 and y[0] == "call" and y[1] in p.bodies)) for t, l, f, w in o.conds) and has(v, lambda x: isinstance(x, tuple) and len(x) == 4 and x[0] == "agg" and x[2] == "ValidationError"):
+                    okerr = True
+        okh = okh and n_h >= 1
+        okp = okp and n_p >= 1
         chk.ob("R1 salt", "R1|convert|hash-iff-should_hash", okh and okp, where(cv), "should_hash=true → make_salt(first/second): %s ; false → the 32 raw bytes (try_into), no hashing: %s" % (okh, okp))
         chk.ob("R6 client validation", "R6|pre-hashed-not-32-bytes", okerr, where(cv), "try_into failure maps to ValidationError: %s" % okerr)
     for nm, suffix, callee in (("registration", "extensions::prf::registration_prf_to_ctap2_input", "prf::make_ctap_extension"), ("authentication", "extensions::prf::auth_prf_to_ctap2_input", "prf::get_ctap_extension")):
@@ -373,71 +394,152 @@ def run(chk):
         conds = flow.conditions(p, co, tc[0][0], T) if tc else []
         ok = any(t[0] == "discr" and t[1][0] == "try" and has(t, lambda x: is_call(x, conv)) and l == ("in", "0") for sb, l, t in conds)
         chk.ob("R6 client validation", "R6|Client::%s|validated-before-authenticator" % nm, ok, where(co, tc[0][0]) if tc else where(co), "the authenticator call is cut by the success edge of %s: %s" % (conv, ok))
-    vn = fn(p, "extensions::prf::validate_no_eval_by_cred")
-    if chk.require("R6 client validation", "R6|validate_no_eval_by_cred", vn, "prf", "validate_no_eval_by_cred not found"):
-        chk.touched(vn)
-        rows = S.local_outcomes(vn)
-        e = [o for o in rows if o.variant[:1] == ("Err",) and has(o.value, lambda x: isinstance(x, tuple) and len(x) == 4 and x[0] == "agg" and x[2] == "NotSupportedError")
-             and any(is_call(t, "Option::is_some") and has(t, lambda x: isinstance(x, tuple) and len(x) == 3 and x[0] == "field" and x[2] == "eval_by_credential") and flow.lab_true(l) for t, l, f, w in o.conds)]
-        oks = [o for o in rows if o.variant[:1] == ("Ok",)]
-        leak = [o for o in oks if any(is_call(t, "Option::is_some") and flow.lab_true(l) for t, l, f, w in o.conds)]
-        chk.ob("R6 client validation", "R6|registration|evalByCredential-rejected", len(e) == 1 and not leak, where(vn), "rows: %s" % [(o.vstr(), o.cond_strs()) for o in rows][:3])
-        mk = fn(p, "extensions::prf::make_ctap_extension")
-        if mk is not None:
-            chk.touched(mk)
-            Tm = flow.Terms(p, mk)
-            cs = names.calls_to(mk, "prf::validate_no_eval_by_cred")
-            tr = [t for t in flow.try_sites(mk) if t["operand"] and cs and t["operand"][0] == cs[0][1]["dest"]["l"]]
-            rets = [s["bb"] for s in flow.outcome_sites(mk) if s["kind"] in ("Ok", "call") and s["path"] == ()]
-            ok = len(cs) == 1 and len(tr) == 1 and flow.cut_by_edges(mk, 0, rets, [(tr[0]["switch_bb"], tr[0]["continue_bb"])]) and flow.simplify_term(Tm.operand(cs[0][1]["args"][0], cs[0][0], "t")) == ("param", 1)
-            chk.ob("R6 client validation", "R6|registration|validation-applied", ok, where(mk), "make_ctap_extension returns Ok only past validate_no_eval_by_cred(prf)?: %s" % ok)
+    # registration: evalByCredential is refused — evaluate the (expanded) table of the registration conversion on the two
+    # abstract inputs "prf carries evalByCredential" and "prf absent, prfAlreadyHashed carries evalByCredential"
+    rg = fn(p, "extensions::prf::registration_prf_to_ctap2_input")
+    if chk.require("R6 client validation", "R6|registration_prf_to_ctap2_input", rg, "prf", "registration_prf_to_ctap2_input not found"):
+        chk.touched(rg)
+        PRF = "passkey_types::webauthn::extensions::pseudo_random_function::AuthenticationExtensionsPrfInputs"
+        INP = "passkey_types::webauthn::extensions::AuthenticationExtensionsClientInputs"
+        with_ebc = normal.some(normal.abstract(p, PRF, eval_by_credential=normal.some(("sym", "record"))))
+        for key, inp in (("evalByCredential-rejected", normal.abstract(p, INP, prf=with_ebc)),
+                         ("validation-applied", normal.abstract(p, INP, prf=normal.NONE, prf_already_hashed=with_ebc))):
+            ev = normal.evaluate(S, rg, N, {("param", 1): normal.some(inp)})
+            bad = [o for o in ev if not (o.variant[:1] == ("Err",) and has(o.value, lambda x: isinstance(x, tuple) and len(x) == 4 and x[0] == "agg" and x[2] == "NotSupportedError"))]
+            chk.ob("R6 client validation", "R6|registration|%s" % key, bool(ev) and not bad, where(rg),
+                   "%d feasible rows for a registration input whose %s has evalByCredential; rows that are not Err(NotSupportedError): %s"
+                   % (len(ev), "prf" if key.startswith("eval") else "prfAlreadyHashed (prf absent)", [(o.vstr(), o.cond_strs()[:3]) for o in bad][:2]))
     gc = fn(p, "extensions::prf::get_ctap_extension")
     if chk.require("R6 client validation", "R6|get_ctap_extension", gc, "prf", "get_ctap_extension not found"):
         chk.touched(gc)
         T = flow.Terms(p, gc)
-        ns = find_aggs(gc, "WebauthnError", "NotSupportedError")
         sy = find_aggs(gc, "WebauthnError", "SyntaxError")
+        # evalByCredential non-empty ∧ (allowCredentials absent ∨ empty) → NotSupportedError: evaluate the expanded table of
+        # the authentication conversion on abstract requests and look at the rows on the "record non-empty" side
+        au = fn(p, "extensions::prf::auth_prf_to_ctap2_input")
         okn = False
-        for bb, i, rv in ns:
-            conds = flow.conditions(p, gc, bb, T)
-            c1 = any(is_call(t, "Option::is_some_and") and mentions_field(p, t[2][0], "eval_by_credential") and flow.lab_true(l) for sb, l, t in conds)
-            # (allow none) ∨ (allow empty): at least the evalByCredential-non-empty condition is mandatory, and the Err is reachable from both
-            okn = c1
-            for sb, l, t in conds:
-                if is_call(t, "Option::is_some_and") and mentions_field(p, t[2][0], "eval_by_credential"):
-                    r = closure_ret(p, t[2][1])
-                    okn = okn and r is not None and r[0] == "unop" and r[1] == "Not" and has(r, lambda x: isinstance(x, tuple) and len(x) == 4 and x[0] == "call" and x[1].endswith("is_empty"))
-            allow = [c for b2, t2 in gc.calls() if names.call_is(t2, "Option::is_none") for c in [flow.simplify_term(T.operand(t2["args"][0], b2, "t"))] if has(c, lambda x: x == ("param", 1))]
-            okn = okn and bool(allow)
-        chk.ob("R6 client validation", "R6|authentication|evalByCredential-without-allow-list", okn and len(ns) == 1, where(gc), "NotSupportedError under evalByCredential non-empty ∧ (allowCredentials absent ∨ empty): %s" % okn)
+        witn = "auth_prf_to_ctap2_input not found"
+        if au is not None:
+            chk.touched(au)
+            PRF = "passkey_types::webauthn::extensions::pseudo_random_function::AuthenticationExtensionsPrfInputs"
+            INP = "passkey_types::webauthn::extensions::AuthenticationExtensionsClientInputs"
+            REQ = "passkey_types::webauthn::assertion::PublicKeyCredentialRequestOptions"
+            prf_in = normal.some(normal.abstract(p, PRF, eval_by_credential=normal.some(("sym", "record"))))
+            okn = True
+            witn = ""
+            for label, allow, need_empty_allow in (("absent", normal.NONE, False), ("present", normal.some(("sym", "allow")), True)):
+                req = normal.abstract(p, REQ, allow_credentials=allow, extensions=normal.some(normal.abstract(p, INP, prf=prf_in)))
+                ev = normal.evaluate(S, au, N, {("param", 1): req})
+                hit = 0
+                for o in ev:
+                    et = [flow.emptiness_test(t, l) for t, l, f, w in o.conds]
+                    rec_nonempty = any(e is not None and e[0] == ("sym", "record") and e[1] is False for e in et)
+                    allow_empty = any(e is not None and has(e[0], lambda x: x == ("sym", "allow")) and e[1] is True for e in et)
+                    if rec_nonempty and (allow_empty or not need_empty_allow):
+                        hit += 1
+                        if not (o.variant[:1] == ("Err",) and has(o.value, lambda x: isinstance(x, tuple) and len(x) == 4 and x[0] == "agg" and x[2] == "NotSupportedError")):
+                            okn = False
+                            witn = "allowCredentials %s: a row with a non-empty evalByCredential is %s under %s" % (label, o.vstr(), o.cond_strs()[:4])
+                if hit == 0:
+                    okn = False
+                    witn = witn or "allowCredentials %s: no row tests evalByCredential for emptiness%s" % (label, " together with allowCredentials" if need_empty_allow else "")
+            witn = witn or "rows with evalByCredential non-empty and allowCredentials absent / empty are all Err(NotSupportedError)"
+        chk.ob("R6 client validation", "R6|authentication|evalByCredential-without-allow-list", okn, where(au or gc), witn)
+        # SyntaxError ⇔ ∃ key ∈ evalByCredential: key is empty ∨ (allowCredentials present ∧ ¬∃ c ∈ allowCredentials: c.id == key).
+        # The per-key predicate is read off either spelling — the closure of `any(..)` that guards the error, or the path
+        # condition from the element of a search loop to the error — brought to a boolean/quantifier normal form
+        # (rules/quant.py) and compared with the specification by truth table over its three atoms.
+        from . import quant
+        F = quant.Formulas(N)
         oks = False
-        polw = ""
+        polw = "no per-key predicate found"
+        KEY = ("key",)
         for bb, i, rv in sy:
-            conds = flow.conditions(p, gc, bb, T)
+            pred_f = None
+            conds = normal.conditions(N, p, gc, bb, T) or []
+            # (A) any(record, |k| P(k)) on its true edge
             for sb, l, t in conds:
-                neg = False
-                tt = t
-                if tt[0] == "unop" and tt[1] == "Not":
-                    neg, tt = True, tt[2]
-                if (is_call(tt, "Iterator::any") or is_call(tt, "Iterator::all")) and tt[2][1][0] == "closure":
-                    cb = p.bodies.get(tt[2][1][1])
-                    if cb is None:
+                f = F.of_edge(t, l)
+                if f[0] == "exists" and has(f[1], lambda x: isinstance(x, tuple) and len(x) == 3 and x[0] == "field" and x[2] == "eval_by_credential"):
+                    pred_f = quant.replace_term(f[2], ("field", ("bound", 0), "0"), KEY)
+                    pred_f = quant.replace_term(pred_f, ("bound", 0), KEY)
+            # (B) a loop over the record: the element is payload(next(..)); P = disjunction of the path conditions from the
+            #     element's binding to the error
+            if pred_f is None:
+                is_next = lambda x: is_call(x, "Iterator::next")
+                ok_e, _b = flow.success_edges(p, gc, is_next, T)
+                for sb, sc in ok_e:
+                    if not has(N.norm(T.operand(gc.term(sb)["op"], sb, "t")), lambda x: isinstance(x, tuple) and len(x) == 3 and x[0] == "field" and x[2] == "eval_by_credential"):
                         continue
-                    nest = p.nested(cb.path)
-                    empt = any((t3.get("callee") or "").endswith("is_empty") for nb in nest for b3, t3 in nb.calls())
-                    unl = any(names.call_is(t3, "PartialEq::eq") for nb in nest for b3, t3 in nb.calls())
-                    # polarity of the predicate: what does it answer for an empty key?
-                    pol = None
-                    for o in S.outcomes(cb):
-                        for c, cl, f, w in o.conds:
-                            if isinstance(c, tuple) and len(c) == 4 and c[0] == "call" and c[1].endswith("is_empty") and flow.lab_true(cl) and o.value in (("const", 1), ("const", 0)):
-                                pol = "bad" if o.value == ("const", 1) else "good"
-                    taken_true = flow.lab_true(l) != neg
-                    quant = "any" if is_call(tt, "Iterator::any") else "all"
-                    # reject iff some key is bad  ==  any(bad) is true  ==  all(good) is false
-                    right = (quant == "any" and pol == "bad" and taken_true) or (quant == "all" and pol == "good" and not taken_true)
-                    polw = "SyntaxError when %s(%s-key predicate) is %s" % (quant, pol, taken_true)
-                    oks = empt and unl and right
+                    elem = [x for x in flow._subjects(flow.presence_test(N.norm(T.operand(gc.term(sb)["op"], sb, "t")), flow.edge_label(gc, sb, sc))[0], False) if is_next(x)]
+                    paths = flow.decision_paths(gc, bb, start=sc, cap=64)
+                    if not elem or not paths:
+                        continue
+                    disj = []
+                    for dec in paths:
+                        rd = flow.ReachingDefs(gc, removed_edges=flow.contradicting_edges(gc, dec))
+                        Tp = flow.Terms(p, gc, rd)
+                        conj = quant.f_and(*[F.of_edge(N.norm(Tp.operand(gc.term(b2)["op"], b2, "t")), flow.edge_label(gc, b2, s2)) for b2, s2 in dec])
+                        # the element as this path sees it
+                        subj = flow.presence_test(N.norm(Tp.operand(gc.term(sb)["op"], sb, "t")), flow.edge_label(gc, sb, sc))
+                        for e in ([x for x in flow._subjects(subj[0], False) if is_next(x)] if subj else []) + elem:
+                            e0 = ("payload", e)
+                            for pat in (("field", e0, "0"), e0):
+                                conj = quant.replace_term(conj, pat, KEY)
+                        disj.append(conj)
+                    pred_f = quant.f_or(*disj)
+            if pred_f is None:
+                continue
+            # classify the leaves
+            leaves = {}
+
+            def leaf_of(f):
+                if f[0] in ("or", "and"):
+                    return all(leaf_of(x) for x in f[1])
+                if f[0] == "not":
+                    return leaf_of(f[1])
+                if f[0] in ("true", "false"):
+                    return True
+                kind = None
+                if f[0] == "atom" and isinstance(f[1], tuple) and len(f[1]) == 4 and f[1][0] == "call" and f[1][1].endswith("is_empty") and quant._strip_refs(f[1][2][0]) == KEY:
+                    kind = "E"
+                elif f[0] == "present" and has(f[1], lambda x: x == ("param", 1)):
+                    kind = "A"
+                elif f[0] == "exists" and has(f[1], lambda x: x == ("param", 1)) and f[2][0] == "eq":
+                    a, b = (tuple(f[2][1]) + (None, None))[:2]
+                    ids = [x for x in (a, b) if isinstance(x, tuple) and len(x) == 3 and x[0] == "field" and x[2] == "id" and isinstance(x[1], tuple) and x[1][:1] == ("bound",)]
+                    keys = [x for x in (a, b) if x == KEY]
+                    kind = "X" if ids and keys else None
+                if kind is None:
+                    leaves[f] = None
+                    return False
+                leaves[f] = kind
+                return True
+            known = leaf_of(pred_f)
+
+            def ev(f, env):
+                if f[0] == "true":
+                    return True
+                if f[0] == "false":
+                    return False
+                if f[0] == "not":
+                    return not ev(f[1], env)
+                if f[0] == "or":
+                    return any(ev(x, env) for x in f[1])
+                if f[0] == "and":
+                    return all(ev(x, env) for x in f[1])
+                return env[leaves[f]]
+            if known:
+                import itertools
+                same = True
+                for E, A, X in itertools.product((False, True), repeat=3):
+                    # `allow present` false makes the inner quantifier vacuous: X only matters when A holds
+                    if ev(pred_f, {"E": E, "A": A, "X": X}) != (E or (A and not X)):
+                        same = False
+                oks = same
+                polw = "per-key predicate over {key empty, allow list present, ∃ listed id == key} is %sequivalent to  empty ∨ (present ∧ ¬∃)" % ("" if same else "NOT ")
+            else:
+                polw = "per-key predicate has unrecognised parts: %s" % [str(k)[:100] for k, v in leaves.items() if v is None][:2]
         # undecodable key: Bytes::try_from error mapped to SyntaxError
         undec = False
         for nb in p.nested(gc.path):
